@@ -912,6 +912,81 @@ def run_heap_order(chk, F):
     chk.expect_count('E9-heap-order', 'functions of Heap_column renaming rows', r, 1)
 
 
+def run_indexed_insert_counter(chk, F):
+    """E3-counter-covers: after `insert_column(column, columnIndex)` the number of columns exceeds columnIndex. The
+    function raises `nextInsertIndex_` to `columnIndex + 1` under a comparison of the two: evaluated on the three
+    orderings (index below, equal to, above the counter), the counter afterwards is above the index in each."""
+    fs = [f for f in F.functions if f.get('clsname') == 'Base_matrix' and f['name'] == 'insert_column' and
+          f.get('inst') in (0, 2) and f.get('body') is not None and len(f.get('params', [])) == 2]
+    if not fs:
+        raise AnalysisBroken('C09: Base_matrix::insert_column(column, index) not found')
+    f = fs[0]
+    idx = f['params'][1]['n']
+    ifs = [x for x in ir.walk(f['body']) if x.get('k') == 'IfStmt' and
+           ir.contains(x.get('then'), lambda y: ir.write_target(y) is not None and
+                       ir.show(ir.write_target(y)).replace('this->', '') == 'nextInsertIndex_')]
+    if len(ifs) != 1:
+        raise AnalysisBroken('C09: the counter update of insert_column(column, index) was not found')
+    c = ir.skipcasts(ifs[0].get('cond'))
+    while c is not None and c.get('k') == 'ParenExpr':
+        c = ir.skipcasts(c['c'][0])
+    t = [ir.show(ir.skipcasts(y)).replace('this->', '') for y in (c.get('c') or [])] if c is not None else []
+    import operator
+    ops = {'<': operator.lt, '<=': operator.le, '>': operator.gt, '>=': operator.ge, '==': operator.eq,
+           '!=': operator.ne}
+    bad = None
+    if c is None or c.get('op') not in ops or sorted(t) != sorted([idx, 'nextInsertIndex_']):
+        bad = 'condition `%s` not understood' % ir.show(ifs[0].get('cond'))
+    else:
+        for i, n0 in ((1, 3), (3, 3), (5, 3)):
+            env = {idx: i, 'nextInsertIndex_': n0}
+            taken = ops[c['op']](env[t[0]], env[t[1]])
+            n1 = i + 1 if taken else n0
+            if not n1 > i:
+                bad = 'with %s == %d and %d columns the counter stays %d: the inserted column is not counted, the ' \
+                      'next appended column overwrites it (or is dropped by the map container)' % (idx, i, n0, n1)
+    chk.ob('E3-counter-covers', 'Base_matrix::insert_column(column, index) leaves the column counter above the index '
+           'on the three orderings of index and counter', '%s:%s' % (rel(f['file']), ifs[0].get('l')), bad is None,
+           bad or '', key='E3|Base_matrix::insert_column|counter-covers')
+
+
+def run_scale_reduced(chk, F):
+    """E10-scale-reduced: `column *= v` takes an arbitrary unsigned v: the shortcuts "times 0: clear" and "times 1:
+    nothing to do" are decided on the value reduced by the field (`get_value(v)`), in every column class - a test on the
+    raw parameter misses the multiples of the characteristic (entries of value 0 are kept) and v = p + 1."""
+    n = 0
+    for f in F.functions:
+        if (f.get('clsname') or '') not in COLUMNS or f['name'] != 'operator*=' or f.get('inst') not in (0, 2) or \
+                f.get('body') is None or len(f.get('params', [])) != 1:
+            continue
+        v = f['params'][0]['n']
+        par = ir.parents(f['body'])
+        raw = []
+        for x in ir.walk(f['body']):
+            if x.get('k') not in ('BinaryOperator', 'CXXOperatorCallExpr') or x.get('op') not in ('==', '!='):
+                continue
+            sides = [ir.skipcasts(y) for y in (x.get('c') or [])[-2:]]
+            if not any(sd is not None and sd.get('k') == 'DeclRefExpr' and sd.get('n') == v for sd in sides):
+                continue
+            # inside the Z_2 arm the parity of the raw value is what matters
+            cur, z2 = x, False
+            while id(cur) in par:
+                up = par[id(cur)]
+                if up.get('k') == 'IfStmt' and up.get('constexpr') and 'is_z2' in ir.show(up.get('cond')) and \
+                        (cur is up.get('then') or ir.contains(up.get('then'), lambda y: y is x)):
+                    z2 = True
+                cur = up
+            if not z2:
+                raw.append(x)
+        n += 1
+        chk.ob('E10-scale-reduced', '%s::operator*= decides its shortcuts on the reduced coefficient' % f['clsname'],
+               '%s:%d' % (rel(f['file']), f['line']), not raw,
+               '' if not raw else 'line %s: `%s` tests the raw parameter: for a multiple of the characteristic the '
+               'column is not cleared, its entries are kept with value 0' % (raw[0].get('l'), ir.show(raw[0])[:40]),
+               key='E10|%s::operator*=|scale-reduced' % f['clsname'])
+    chk.expect_count('E10-scale-reduced', 'operator*= implementations', n, 8)
+
+
 def run_order_before_count(chk, F):
     """E2-order-counted: _orderRows() applies the pending lazy swaps to the columns 0 .. get_number_of_columns() - 1,
     and with the vector container that number is the insertion counter. On every path of a remove_last of the base /
@@ -1432,6 +1507,8 @@ def run(tier, replay=None):
     run_unknown_rows(chk, F)
     run_order_before_count(chk, F)
     run_base_swaps_protocol(chk, F)
+    run_indexed_insert_counter(chk, F)
+    run_scale_reduced(chk, F)
     run_heap_order(chk, F)
     findrule.run(chk, F, ('Base_matrix.h', 'base_swap.h', 'matrix_row_access.h',
                           'Base_matrix_with_column_compression.h'), TABLE.get('find_invariants', {}), 'C09', 3)
